@@ -32,12 +32,85 @@ fn gen_style(ch: &mut Choices<'_>) -> Style {
 
 /// One well-typedness-preserving structural change.
 fn mutate(ch: &mut Choices<'_>, r: &Recipe, e: &mut MExpr, budget: &mut usize) -> Option<&'static str> {
-    fn bump_lit(l: &mut MLit) {
+    /// A small edit of a byte string that keeps a wildcard pattern valid: one more ordinary byte, the case of one
+    /// ASCII letter, the low bit of the last byte, a trailing NUL, or the last ordinary byte dropped.
+    fn edit_bytes(ch: &mut Choices<'_>, v: &mut Vec<u8>) -> &'static str {
+        let letters: Vec<usize> = v.iter().enumerate().filter(|(_, b)| b.is_ascii_alphabetic()).map(|(i, _)| i).collect();
+        match ch.draw(5) {
+            1 if !letters.is_empty() => {
+                let i = *ch.pick(&letters);
+                v[i] ^= 0x20;
+                "literal-letter-case"
+            }
+            2 if v.last().map_or(false, |b| b.is_ascii_alphanumeric() && (*b ^ 1).is_ascii_alphanumeric()) => {
+                *v.last_mut().unwrap() ^= 1;
+                "literal-low-bit"
+            }
+            3 => {
+                v.push(0);
+                "literal-trailing-nul"
+            }
+            4 if v.len() >= 2 && v[v.len() - 1].is_ascii_alphanumeric() && v[v.len() - 2].is_ascii_alphanumeric() => {
+                v.pop();
+                "literal-shortened"
+            }
+            _ => {
+                v.push(b'x');
+                "literal"
+            }
+        }
+    }
+    fn bump_lit(ch: &mut Choices<'_>, l: &mut MLit) -> &'static str {
         match l {
-            MLit::Int(i) => i.v = i.v.wrapping_add(1),
-            MLit::Bytes(b) => b.v.push(b'x'),
-            MLit::Ip(IpAddr::V4(a)) => *l = MLit::Ip(IpAddr::V4(Ipv4Addr::from(u32::from(*a).wrapping_add(1)))),
-            MLit::Ip(IpAddr::V6(a)) => *l = MLit::Ip(IpAddr::V6(Ipv6Addr::from(u128::from(*a).wrapping_add(1)))),
+            MLit::Int(i) => match ch.draw(4) {
+                1 if i.v != 0 && i.v != i64::MIN => {
+                    i.v = -i.v;
+                    if i.v < 0 {
+                        i.form = IntForm::Dec;
+                    }
+                    "literal-sign"
+                }
+                2 => {
+                    i.v ^= 1 << 32;
+                    if i.v < 0 {
+                        i.form = IntForm::Dec;
+                    }
+                    "literal-bit-32"
+                }
+                3 => {
+                    i.v ^= i64::MIN;
+                    if i.v < 0 {
+                        i.form = IntForm::Dec;
+                    }
+                    "literal-top-bit"
+                }
+                _ => {
+                    i.v = i.v.wrapping_add(1);
+                    if i.v < 0 {
+                        i.form = IntForm::Dec;
+                    }
+                    "literal"
+                }
+            },
+            MLit::Bytes(b) => edit_bytes(ch, &mut b.v),
+            MLit::Ip(IpAddr::V4(a)) => {
+                if ch.boolean() {
+                    *l = MLit::Ip(IpAddr::V6(a.to_ipv6_mapped()));
+                    "literal-ip-family"
+                } else {
+                    *l = MLit::Ip(IpAddr::V4(Ipv4Addr::from(u32::from(*a).wrapping_add(1))));
+                    "literal"
+                }
+            }
+            MLit::Ip(IpAddr::V6(a)) => {
+                if ch.boolean() {
+                    *l = MLit::Ip(IpAddr::V6(Ipv6Addr::from(u128::from(*a) ^ (1 << 127))));
+                    "literal-top-bit"
+                } else {
+                    *l = MLit::Ip(IpAddr::V6(Ipv6Addr::from(u128::from(*a).wrapping_add(1))));
+                    "literal"
+                }
+            }
         }
     }
     fn index(ch: &mut Choices<'_>, r: &Recipe, ix: &mut MIndex, budget: &mut usize) -> Option<&'static str> {
@@ -73,7 +146,7 @@ fn mutate(ch: &mut Choices<'_>, r: &Recipe, e: &mut MExpr, budget: &mut usize) -
                     MArg::Index(i) => index(ch, r, i, budget),
                     MArg::Lit(l) => {
                         if *budget == 0 {
-                            bump_lit(l);
+                            bump_lit(ch, l);
                             Some("argument-literal")
                         } else {
                             *budget -= 1;
@@ -105,20 +178,51 @@ fn mutate(ch: &mut Choices<'_>, r: &Recipe, e: &mut MExpr, budget: &mut usize) -
                             };
                             return Some("comparison-operator");
                         }
-                        bump_lit(l);
-                        return Some("literal");
+                        return Some(bump_lit(ch, l));
                     }
                     MOp::BitAnd(i) => {
                         i.v = i.v.wrapping_add(1);
                         return Some("literal");
                     }
                     MOp::Contains(b) => {
-                        b.v.push(b'x');
-                        return Some("literal");
+                        return Some(edit_bytes(ch, &mut b.v));
                     }
-                    MOp::Wildcard { strict, .. } => {
-                        *strict = !*strict;
-                        return Some("wildcard-strictness");
+                    MOp::Wildcard { strict, pat } => {
+                        let how = ch.draw(3);
+                        if how == 0 {
+                            *strict = !*strict;
+                            return Some("wildcard-strictness");
+                        }
+                        if how == 1 {
+                            if let Some(i) = pat.v.iter().position(|b| b.is_ascii_alphabetic()) {
+                                pat.v[i] ^= 0x20;
+                                return Some("wildcard-pattern-letter-case");
+                            }
+                        }
+                        // the pattern itself (a pattern that ends in a backslash escape is left to the other edits)
+                        let before = pat.v.clone();
+                        let m = edit_bytes(ch, &mut pat.v);
+                        if m == "literal-trailing-nul" || before.last() == Some(&b'\\') {
+                            pat.v = before;
+                            pat.v.push(b'x');
+                            return Some("wildcard-pattern");
+                        }
+                        return Some(if m == "literal-letter-case" { "wildcard-pattern-letter-case" } else { "wildcard-pattern" });
+                    }
+                    MOp::Matches(rx, _) if !rx.alts.is_empty() && ch.boolean() => {
+                        let flip = rx.alts[0].iter().position(|n| matches!(n, crate::rx::Node::Lit(b) if b.is_ascii_alphabetic()));
+                        match flip {
+                            Some(i) if ch.draw(3) != 0 => {
+                                if let crate::rx::Node::Lit(b) = &mut rx.alts[0][i] {
+                                    *b ^= 0x20;
+                                }
+                                return Some("regex-letter-case");
+                            }
+                            _ => {
+                                rx.alts[0].push(crate::rx::Node::Lit(b'x'));
+                                return Some("regex-pattern");
+                            }
+                        }
                     }
                     MOp::In(items) => {
                         if !items.is_empty() && ch.boolean() {
